@@ -295,6 +295,13 @@ class Ctx:
                         names.append(c.name)
                     res.append((self.isinstance_(obj, names), p3))
             return res
+        if isinstance(f, ast.Name) and f.id in ("set", "list") and len(e.args) == 1 and not e.keywords and f.id not in p.env and \
+           isinstance(e.args[0], (ast.ListComp, ast.GeneratorExp, ast.SetComp)):
+            c0 = e.args[0]
+            elt = c0.elt
+            comp = ast.SetComp(elt=elt, generators=c0.generators) if f.id == "set" else ast.ListComp(elt=elt, generators=c0.generators)
+            ast.copy_location(comp, c0)            # same position => same temporary name as the inner comprehension
+            return ex.ev(comp, p)
         res = []
         for (args, kwargs, starkw), p2 in self.evargs(ex, e, p):
             res.extend(self.dispatch(ex, e, f, args, kwargs, starkw, p2))
@@ -498,7 +505,7 @@ class Ctx:
         sub.loop_hook = ex.loop_hook
         sub.try_depth = ex.try_depth
         sub.pure = ex.pure
-        sub.writes = ex.writes
+        sub.writes = set() if ex.writes is not None else None      # the helper's own locals are not the caller's
         q = p.copy()
         q.env = env
         self.inline_depth += 1
@@ -511,11 +518,24 @@ class Ctx:
         finally:
             self.inline_depth -= 1
         ex.notes.extend(sub.notes)
+        # objects passed by reference: a parameter the helper mutated in place (not rebound) is the caller's object
+        back = {}
+        if e is not None and hasattr(e, "args"):
+            for nm, a in zip(names, list(e.args)):
+                if isinstance(a, ast.Name) and a.id in p.env and ("local:" + nm) in sub.mutated and ("local:" + nm) not in sub.rebound:
+                    back[nm] = a.id
         res = []
         for o in rets:
             q3 = o.st.copy()
+            final_env = q3.env
             q3.env = dict(p.env)
+            for nm, caller in back.items():
+                if nm in final_env:
+                    q3.env[caller] = final_env[nm]
+                    ex.note_write("local:" + caller)
             res.append((o.value, q3))
+        if ex.writes is not None and sub.writes:
+            ex.writes |= {k for k in sub.writes if not k.startswith("local:")}
         return res
 
     def object_method(self, ex, e, f, mname, args, kwargs, p):
@@ -563,6 +583,7 @@ class Ctx:
         q = q.copy()
         l.set(q, app("meth_" + mname, cur, *av))
         ex.note_write(l.key)
+        ex.mutated.add(l.key)
         return [(app("ret_" + mname, cur, *av), q)]
 
     def mutate(self, ex, e, l, mname, args, kwargs, p):
@@ -601,6 +622,7 @@ class Ctx:
             raise Unsupported("mutating method .%s" % mname, e)
         l.set(q, new)
         ex.note_write(l.key)
+        ex.mutated.add(l.key)
         self.effect(ex, q, "method-" + mname, l.key, e)
         return [(ret, q)]
 
